@@ -11,6 +11,9 @@ var Base = time.Date(2024, 3, 4, 10, 0, 0, 0, time.UTC)
 var nowMirror atomic.Int64 // copy of s.now readable from unmanaged goroutines
 
 func setNow(d time.Duration) {
+	if d != s.now {
+		s.parkEpoch++
+	}
 	s.now = d
 	nowMirror.Store(int64(d))
 }
